@@ -14,15 +14,16 @@ import (
 // lcDesc describes one lifecycle scenario (C14 / C15): a set of threads whose
 // interleavings are the histories of the property.
 type lcDesc struct {
-	Conns     []string `json:"conns"`     // connection scripts, round 0
-	Shutdowns int      `json:"shutdowns"` // Shutdown calls (one thread each)
-	B         string   `json:"b"`         // "", "bind", "listen": issued while serving
-	Cancel    bool     `json:"cancel"`    // a thread cancels the serving context
-	Rounds    int      `json:"rounds"`    // serving rounds on the same Service object
-	Late      bool     `json:"late"`      // a client that dials only after a Shutdown has returned
-	Timeout   bool     `json:"timeout"`   // serve with an idle timeout (C15)
-	Fires     int      `json:"fires"`     // accept-deadline expiries available to the timer thread
-	Via       string   `json:"via"`       // "dolisten": install a listener + DoListen; "listen": Listen(address) with the network listen hooked onto the controlled listener
+	Conns     []string `json:"conns"`           // connection scripts, round 0
+	Shutdowns int      `json:"shutdowns"`       // Shutdown calls (one thread each)
+	B         string   `json:"b"`               // "", "bind", "listen": issued while serving
+	Cancel    bool     `json:"cancel"`          // a thread cancels the serving context
+	Rounds    int      `json:"rounds"`          // serving rounds on the same Service object
+	Late      bool     `json:"late"`            // a client that dials only after a Shutdown has returned
+	Timeout   bool     `json:"timeout"`         // serve with an idle timeout (C15)
+	Fires     int      `json:"fires"`           // accept-deadline expiries available to the timer thread
+	Plain     int      `json:"plain,omitempty"` // with Timeout and two rounds: round Plain-1 is served without a timeout (0 = every round has one)
+	Via       string   `json:"via"`             // "dolisten": install a listener + DoListen; "listen": Listen(address) with the network listen hooked onto the controlled listener
 }
 
 type lcState struct {
@@ -78,6 +79,10 @@ var connScripts = map[string]struct {
 	"block":     {[]string{"{\"method\":\"t.a.B\"}\x00"}, "half"},
 	"idleclose": {nil, "close"},
 	"two":       {[]string{"{\"method\":\"t.a.R\"}\x00{\"method\":\"org.varlink.service.GetInfo\"}\x00"}, "half"},
+	// introspection only: these calls never pass through the dispatch-table lookup, so nothing but their own
+	// locking orders them with a registration
+	"info": {[]string{"{\"method\":\"org.varlink.service.GetInfo\"}\x00"}, "half"},
+	"desc": {[]string{"{\"method\":\"org.varlink.service.GetInterfaceDescription\",\"parameters\":{\"interface\":\"t.a\"}}\x00"}, "half"},
 }
 
 func peek(s *varlink.Service, ls []*vnet.Listener) string {
@@ -93,6 +98,9 @@ func peek(s *varlink.Service, ls []*vnet.Listener) string {
 	}
 	return fmt.Sprintf("running=%v listener=%s count=%d proto=%q addr=%q", running, ln, cnt, proto, addr)
 }
+
+// timed: is round r served with an idle timeout
+func (d lcDesc) timed(r int) bool { return d.Timeout && d.Plain != r+1 }
 
 func lcBody(d lcDesc) func() {
 	return func() {
@@ -164,9 +172,11 @@ func lcBody(d lcDesc) func() {
 			}
 			return false
 		}
-		var timeout time.Duration
-		if d.Timeout {
-			timeout = time.Hour
+		timeoutOf := func(r int) time.Duration {
+			if d.timed(r) {
+				return time.Hour
+			}
+			return 0
 		}
 		curRound := func() int {
 			for r := d.Rounds - 1; r >= 0; r-- {
@@ -181,14 +191,14 @@ func lcBody(d lcDesc) func() {
 				var err error
 				if d.Via == "listen" {
 					st.nextBind = r
-					err = w.S.Listen(w.Ctx, "unix:@vx", timeout)
+					err = w.S.Listen(w.Ctx, "unix:@vx", timeoutOf(r))
 					if st.bound[r] == 0 && st.hooked[r] {
 						st.bound[r] = w.ev("bound %d (seen at return)", r)
 					}
 				} else {
 					w.S.VerifSetListener(st.Ls[r])
 					st.bound[r] = w.ev("bound %d", r)
-					err = w.S.DoListen(w.Ctx, timeout)
+					err = w.S.DoListen(w.Ctx, timeoutOf(r))
 				}
 				if p := st.pendingTO; p != nil {
 					p.nextOp = "return"
@@ -569,7 +579,7 @@ func lcCheck15(x *vsched.Exec) (string, string) {
 	d := st.d
 	for r := 0; r < d.Rounds; r++ {
 		l := st.Ls[r]
-		if !d.Timeout {
+		if !d.timed(r) {
 			if l.Arms > 0 {
 				return "serving without a timeout armed an accept deadline", "symptom=deadline-armed-without-timeout"
 			}
@@ -581,6 +591,9 @@ func lcCheck15(x *vsched.Exec) (string, string) {
 				if st.shutStart[k] != 0 {
 					applicable = true
 				}
+			}
+			if d.Cancel {
+				applicable = true
 			}
 			if st.bound[r] != 0 && st.ret[r] != 0 && !applicable {
 				return fmt.Sprintf("serving without a timeout and without Shutdown stopped by itself (returned %q)", st.retVal[r]), "symptom=stopped-by-itself"
@@ -667,6 +680,10 @@ func scenariosC15(tier string) []Scen {
 		}
 		descs = append(descs, lcDesc{Conns: cs, Rounds: 2, Timeout: true, Fires: 2})
 		descs = append(descs, lcDesc{Conns: cs, Rounds: 1, Timeout: true, Fires: 2, Shutdowns: 1})
+		// the same Service object served once with and once without a timeout, in both orders: what one run was
+		// given must not govern the next
+		descs = append(descs, lcDesc{Conns: cs, Rounds: 2, Timeout: true, Fires: 3, Plain: 2})
+		descs = append(descs, lcDesc{Conns: cs, Rounds: 2, Timeout: true, Fires: 2, Plain: 1, Shutdowns: 1})
 		// no timeout: never stops by itself, never arms a deadline
 		descs = append(descs, lcDesc{Conns: cs, Rounds: 1, Timeout: false, Fires: 1})
 		descs = append(descs, lcDesc{Conns: cs, Rounds: 1, Timeout: false, Fires: 1, Shutdowns: 1})
